@@ -69,6 +69,12 @@ type cluster struct {
 	noteMu sync.Mutex
 }
 
+// subRand derives an independent stream: vh.Rand streams of neighbouring seeds
+// are shifted copies of each other, so derived seeds go through the mixer twice.
+func subRand(seed uint64, salt uint64) *vh.Rand {
+	return vh.NewRand(vh.NewRand(vh.NewRand(seed).U64() ^ (salt * 0xD6E8FEB86659FD93)).U64())
+}
+
 func (c *cluster) note(k string) {
 	c.noteMu.Lock()
 	c.notes[k]++
@@ -126,7 +132,7 @@ func startCluster(cfg histCfg) (*cluster, error) {
 	if cfg.nonVoting {
 		n = 4
 	}
-	c := &cluster{cfg: cfg, net: newNetwork(cfg.seed ^ 0xabcdef), rec: newRecorder(),
+	c := &cluster{cfg: cfg, net: newNetwork(subRand(cfg.seed, 99).U64()), rec: newRecorder(),
 		hosts: make([]*dragonboat.NodeHost, n), codes: dragonboat.VerifC01Codes(), notes: map[string]int{}}
 	members := map[uint64]dragonboat.Target{}
 	for i := 0; i < n; i++ {
@@ -231,6 +237,7 @@ func (c *cluster) doWrite(client, host int, nh *dragonboat.NodeHost, key, val ui
 	op := &opRec{id: atomic.AddUint64(&c.nextID, 1), client: client, host: host, kind: 'W', key: key, val: val}
 	cmd := encodeCmd(op.id, key, val)
 	cs := nh.GetNoOPSession(shardID)
+	defer c.record(op)()
 	if async {
 		op.api = "Propose"
 		op.inv = c.tick()
@@ -276,10 +283,25 @@ func (c *cluster) doWrite(client, host int, nh *dragonboat.NodeHost, key, val ui
 		op.resp = c.tick()
 		cancel()
 	}
+	return op
+}
+
+// record registers op before the API is entered; the returned function closes an
+// operation that was abandoned by a panic inside the library as "no answer" (it
+// may or may not take effect), so that its entry is never taken for a fabricated one.
+func (c *cluster) record(op *opRec) func() {
 	c.opsMu.Lock()
 	c.ops = append(c.ops, op)
 	c.opsMu.Unlock()
-	return op
+	return func() {
+		if op.inv == 0 {
+			op.inv = c.tick()
+		}
+		if op.resp == 0 {
+			op.code = c.codes["timeout"]
+			op.resp = c.tick()
+		}
+	}
 }
 
 func (c *cluster) doRead(client, host int, nh *dragonboat.NodeHost, key uint64, async bool, timeout time.Duration) *opRec {
@@ -297,6 +319,7 @@ func (c *cluster) doRead(client, host int, nh *dragonboat.NodeHost, key uint64, 
 		op.code = c.codes["completed"]
 		op.rval, op.rver, op.obs = lr.val, lr.ver, lr.count
 	}
+	defer c.record(op)()
 	if async {
 		op.api = "ReadIndex+ReadLocalNode"
 		op.inv = c.tick()
@@ -326,15 +349,12 @@ func (c *cluster) doRead(client, host int, nh *dragonboat.NodeHost, key uint64, 
 		op.resp = c.tick()
 		cancel()
 	}
-	c.opsMu.Lock()
-	c.ops = append(c.ops, op)
-	c.opsMu.Unlock()
 	return op
 }
 
 func (c *cluster) clientLoop(id int, stop <-chan struct{}, wg *sync.WaitGroup) {
 	defer wg.Done()
-	r := vh.NewRand(c.cfg.seed*1000 + uint64(id))
+	r := subRand(c.cfg.seed, 1000+uint64(id))
 	for {
 		select {
 		case <-stop:
@@ -405,7 +425,7 @@ func (c *cluster) leader() uint64 {
 
 func (c *cluster) nemesis(stop <-chan struct{}, wg *sync.WaitGroup) {
 	defer wg.Done()
-	r := vh.NewRand(c.cfg.seed*77 + 5)
+	r := subRand(c.cfg.seed, 77)
 	restarted := !c.cfg.restart
 	start := time.Now()
 	for {
